@@ -3,8 +3,9 @@
 import json, os, shutil, sys
 P, k = sys.argv[1], sys.argv[2]
 tests = sys.argv[3].split(",") if len(sys.argv) > 3 and sys.argv[3] else []
+as_k = sys.argv[4] if len(sys.argv) > 4 else k  # target index (second wave: 3, 4)
 src = f"/tmp/seed/{P}/_seed"
-dst = f"/verif/seeded/{P}-{k}"
+dst = f"/verif/seeded/{P}-{as_k}"
 os.makedirs(dst, exist_ok=True)
 shutil.copy(f"{src}/patch_{k}.diff", f"{dst}/patch.diff")
 shutil.copy(f"{src}/demo_{k}.py", f"{dst}/demo.py")
